@@ -306,7 +306,7 @@ def explore(ctx, factor, bs):
     for _ in range(ctx.pick(40, 600) * factor):
         include_case(ctx, rng)
     # row-level `flat` groups: correspondence with the flat-aware model (`flat.model`) + oracle
-    for _ in range(ctx.pick(400, 8000) * factor):
+    for _ in range(ctx.pick(400, 5000) * factor):
         flat_case(ctx, flat_form(rng, big=not ctx.quick()))
     n = ctx.pick(1200, 30000) * factor
     for i in range(n):
